@@ -65,7 +65,7 @@ pub fn families(focus: Focus) -> Vec<Box<dyn Family>> {
                 if focus == Focus::C03 && alg == Algorithm::Patience {
                     continue;
                 }
-                captured_case(focus, cfg, alg, &a, 0..a.len(), &b, 0..b.len(), (idx % 3) as u8, true, out);
+                captured_case(focus, cfg, alg, &a, 0..a.len(), &b, 0..b.len(), (idx % 5) as u8, true, out);
             }
         },
     ));
@@ -116,7 +116,7 @@ pub fn families(focus: Focus) -> Vec<Box<dyn Family>> {
             let (a, b) = gen::rand_pair(&mut rng, max_len);
             let (or, nr) = if rng.chance(1, 2) { (0..a.len(), 0..b.len()) } else { gen::rand_ranges(&mut rng, a.len(), b.len()) };
             out.sample(|| format!("alg={} old={} range {:?} new={} range {:?}", alg_name(alg), fmt_seq(&a), or, fmt_seq(&b), nr));
-            captured_case(focus, cfg, alg, &a, or, &b, nr, rng.below(3) as u8, false, out);
+            captured_case(focus, cfg, alg, &a, or, &b, nr, rng.below(5) as u8, false, out);
         },
     ));
     v.push(family(
@@ -152,7 +152,7 @@ pub fn families(focus: Focus) -> Vec<Box<dyn Family>> {
             if a.len() > 65_535 || b.len() > 65_535 {
                 out.count("cases_above_65535_items");
             }
-            captured_case(focus, cfg, alg, &a, 0..a.len(), &b, 0..b.len(), rng.below(3) as u8, false, out);
+            captured_case(focus, cfg, alg, &a, 0..a.len(), &b, 0..b.len(), rng.below(5) as u8, false, out);
         },
     ));
     v.push(family(
@@ -207,7 +207,7 @@ pub fn families(focus: Focus) -> Vec<Box<dyn Family>> {
                 }
                 return;
             }
-            captured_case(focus, cfg, alg, &a, 0..a.len(), &b, 0..b.len(), rng.below(3) as u8, false, out);
+            captured_case(focus, cfg, alg, &a, 0..a.len(), &b, 0..b.len(), rng.below(5) as u8, false, out);
         },
     ));
     v.push(family(
@@ -227,7 +227,7 @@ pub fn families(focus: Focus) -> Vec<Box<dyn Family>> {
             if alg == Algorithm::Lcs && a.len() * b.len() > (1 << 24) {
                 out.count("lcs_cases_above_4096x4096");
             }
-            captured_case(focus, cfg, alg, &a, 0..a.len(), &b, 0..b.len(), rng.below(3) as u8, false, out);
+            captured_case(focus, cfg, alg, &a, 0..a.len(), &b, 0..b.len(), rng.below(5) as u8, false, out);
         },
     ));
     v.push(family(
@@ -249,7 +249,7 @@ pub fn families(focus: Focus) -> Vec<Box<dyn Family>> {
             }
             out.sample(|| format!("alg={} N={} M={} (run of {} identical items)", alg_name(alg), a.len(), b.len(), run));
             out.count("long_run_cases");
-            captured_case(focus, cfg, alg, &a, 0..a.len(), &b, 0..b.len(), rng.below(3) as u8, false, out);
+            captured_case(focus, cfg, alg, &a, 0..a.len(), &b, 0..b.len(), rng.below(5) as u8, false, out);
         },
     ));
     v.push(family(
@@ -286,7 +286,7 @@ pub fn families(focus: Focus) -> Vec<Box<dyn Family>> {
     ));
     v.push(family(
         "tolerance",
-        "heterogeneous item types with a NON-TRANSITIVE, coarse cross comparison (old u32, new Tol: equal iff |a-b| <= 1): every ordered pair over {0..4} with length <= 4 (thorough 5) + seeded random pairs over {0..9} up to 40 items x 3 algorithms through capture_diff: validity / normal form / carried positions / minimality are all judged under that same cross comparison",
+        "heterogeneous item types with a NON-TRANSITIVE, coarse cross comparison (old u32, new Tol: equal iff |a-b| <= 1): every ordered pair over {0..4} with length <= 4 (thorough 5) + seeded random pairs over {0..9} up to 40 items and edited copies of 101..260 items x 3 algorithms through capture_diff: validity / normal form / carried positions / minimality are all judged under that same cross comparison",
         true,
         16,
         move |cfg| {
@@ -302,10 +302,17 @@ pub fn families(focus: Focus) -> Vec<Box<dyn Family>> {
             tolerance_case(focus, cfg, &a, &b, out);
             if idx % 16 == 0 {
                 let mut rng = Rng::for_case(cfg.seed, "captured.tolerance", idx);
-                let la = rng.below(if cfg.tiny { 5 } else { 40 });
-                let lb = rng.below(if cfg.tiny { 5 } else { 40 });
-                let a: Vec<u32> = (0..la).map(|_| rng.below(10) as u32).collect();
-                let b: Vec<u32> = if rng.chance(1, 2) { (0..lb).map(|_| rng.below(10) as u32).collect() } else { gen::point_edits(&mut rng, &a, 3, 10, 44) };
+                // every 4th of these: MORE THAN 100 items (sizes at which a text diff maps items to integers)
+                let big = idx % 64 == 0 && !cfg.tiny;
+                let cap = if cfg.tiny { 5 } else if big { 260 } else { 40 };
+                let la = if big { 101 + rng.below(cap - 100) } else { rng.below(cap) };
+                let lb = if big { 101 + rng.below(cap - 100) } else { rng.below(cap) };
+                let alpha = if big { 10 + rng.below(60) } else { 10 };
+                let a: Vec<u32> = (0..la).map(|_| rng.below(alpha) as u32).collect();
+                let b: Vec<u32> = if rng.chance(1, 2) && !big { (0..lb).map(|_| rng.below(alpha) as u32).collect() } else { gen::point_edits(&mut rng, &a, if big { 6 } else { 3 }, alpha as u32, if big { 400 } else { 44 }) };
+                if big {
+                    out.count("tolerance_cases_above_100_items");
+                }
                 tolerance_case(focus, cfg, &a, &b, out);
             }
         },
@@ -324,7 +331,7 @@ pub fn families(focus: Focus) -> Vec<Box<dyn Family>> {
             let (a, b, kind) = gen::structured_pair(&mut rng, max);
             let (a, b) = if rng.chance(1, 2) { (a, b) } else { (b, a) };
             out.sample(|| format!("alg={} structure={} old={} new={}", alg_name(alg), kind, fmt_seq(&a), fmt_seq(&b)));
-            captured_case(focus, cfg, alg, &a, 0..a.len(), &b, 0..b.len(), rng.below(3) as u8, a.len() + b.len() <= 40, out);
+            captured_case(focus, cfg, alg, &a, 0..a.len(), &b, 0..b.len(), rng.below(5) as u8, a.len() + b.len() <= 40, out);
         },
     ));
     v.push(family(
@@ -451,6 +458,368 @@ pub fn families(focus: Focus) -> Vec<Box<dyn Family>> {
             }
         },
     ));
+    v.push(family(
+        "sorted_windows",
+        "item VALUES with structure (the dispatching entry points may consult Ord): old and new are windows of one sorted sequence (log rotation: old = s..s+n, new = s+n-k..s+n-k+m for overlap k in {0,1,2,5,half}), constant runs meeting at one value, strictly decreasing values, old all smaller / all larger than new; total sizes 10..3000 (around 1024 and 2048 in particular) x 3 algorithms x all capture entry points; the optimum is known by construction (C03)",
+        false,
+        1,
+        move |cfg| if cfg.tiny { 4 } else { cfg.tier.pick(240, 1600) },
+        move |idx, cfg, out| {
+            let mut rng = Rng::for_case(cfg.seed, "captured.sorted_windows", idx);
+            let total = if cfg.tiny { 8 } else { *rng.pick(&[10usize, 60, 500, 1000, 1022, 1024, 1026, 1030, 1500, 2046, 2050, 3000]) };
+            let n = (total / 2 + rng.below(total / 4 + 1)).max(1);
+            let m = (total - n.min(total)).max(1);
+            let kind = idx % 6;
+            let s = rng.below(1000) as u32;
+            let (a, b, opt, what): (Vec<u32>, Vec<u32>, usize, &str) = match kind {
+                0 | 1 => {
+                    // sliding window over sorted distinct values
+                    let k = (*rng.pick(&[0usize, 1, 1, 2, 5, n / 2])).min(n).min(m);
+                    let a: Vec<u32> = (0..n as u32).map(|i| s + i).collect();
+                    let b: Vec<u32> = (0..m as u32).map(|i| s + (n - k) as u32 + i).collect();
+                    (a, b, n + m - 2 * k, "sliding window over sorted distinct values")
+                }
+                2 => {
+                    // constant runs that meet in one shared value: old = x^n, new = x^m  (max(old) == min(new))
+                    let a = vec![s; n];
+                    let b = vec![s; m];
+                    (a, b, n.max(m) - n.min(m), "constant runs of one value")
+                }
+                3 => {
+                    // non-decreasing with duplicates; old's largest value is new's smallest, shared c times
+                    let c = 1 + rng.below(4);
+                    let mut a: Vec<u32> = (0..n.saturating_sub(c) as u32).map(|i| s + i / 2).collect();
+                    let top = a.last().copied().unwrap_or(s) + 1;
+                    a.extend(std::iter::repeat(top).take(c));
+                    let mut b: Vec<u32> = std::iter::repeat(top).take(c).collect();
+                    b.extend((0..m.saturating_sub(c) as u32).map(|i| top + 1 + i / 2));
+                    let (la, lb) = (a.len(), b.len());
+                    (a, b, la + lb - 2 * c, "sorted with duplicates, touching in one repeated value")
+                }
+                4 => {
+                    // strictly decreasing values, new is old with a window removed
+                    let a: Vec<u32> = (0..n as u32).map(|i| s + 2 * n as u32 - i).collect();
+                    let cut = rng.below(n);
+                    let w = rng.below(n - cut + 1).min(20);
+                    let mut b = a[..cut].to_vec();
+                    b.extend_from_slice(&a[cut + w..]);
+                    (a, b, w, "strictly decreasing, a window removed")
+                }
+                _ => {
+                    // all of old larger than all of new except one shared item in the middle of both
+                    let mut a: Vec<u32> = (0..n as u32).map(|i| 1_000_000 + i).collect();
+                    let mut b: Vec<u32> = (0..m as u32).map(|i| 10 + i).collect();
+                    let (pa, pb) = (rng.below(n), rng.below(m));
+                    a[pa] = 5;
+                    b[pb] = 5;
+                    (a, b, n + m - 2, "old all larger than new, one shared item")
+                }
+            };
+            let (a, b) = if rng.chance(1, 2) { (a, b) } else { (b, a) };
+            let alg = ALGS[rng.below(3)];
+            let alg = if focus == Focus::C03 && alg == Algorithm::Patience { Algorithm::Myers } else { alg };
+            // LCS: keep the table affordable
+            let alg = if alg == Algorithm::Lcs && a.len() * b.len() > 1_200_000 { Algorithm::Myers } else { alg };
+            out.sample(|| format!("alg={} N={} M={} {} (optimum {}) old={} new={}", alg_name(alg), a.len(), b.len(), what, opt, fmt_seq(&a), fmt_seq(&b)));
+            out.count("sorted_window_cases");
+            struct ResetKnown;
+            impl Drop for ResetKnown {
+                fn drop(&mut self) {
+                    KNOWN_OPTIMUM.with(|k| k.set(None));
+                }
+            }
+            let _reset = ResetKnown;
+            KNOWN_OPTIMUM.with(|k| k.set(Some(opt)));
+            let entry = [4u8, 1, 0, 4, 2, 3][(idx / 6 % 6) as usize];
+            captured_case(focus, cfg, alg, &a, 0..a.len(), &b, 0..b.len(), entry, false, out);
+        },
+    ));
+    if focus != Focus::C03 {
+        v.push(family(
+            "reversed_empty_ranges",
+            "ranges given with start > end (both ends in bounds) are EMPTY ranges positioned at `start`: every pair over {0,1} up to length 4 x every reversed range on one or both sides x 3 algorithms through capture_diff / capture_diff_deadline (none, never expiring, expired at check #0): the ops must consume exactly the other side's range, carry `start` as the position on the empty side, and be in normal form",
+            true,
+            4,
+            move |cfg| {
+                let n = gen::all_seqs(2, if cfg.tiny { 2 } else { 4 }).len() as u64;
+                n * n
+            },
+            move |idx, cfg, out| {
+                let seqs = gen::all_seqs(2, if cfg.tiny { 2 } else { 4 });
+                let (a, b) = gen::pair_of(seqs, idx);
+                let a: Vec<u32> = a.iter().map(|x| *x as u32).collect();
+                let b: Vec<u32> = b.iter().map(|x| *x as u32).collect();
+                out.sample(|| format!("old={:?} new={:?} x reversed (start > end) ranges x 3 algorithms", a, b));
+                let reversed = |len: usize| -> Vec<Range<usize>> {
+                    let mut v = Vec::new();
+                    for s in 1..=len {
+                        for e in 0..s {
+                            v.push(s..e);
+                        }
+                    }
+                    v
+                };
+                let mut combos: Vec<(Range<usize>, Range<usize>)> = Vec::new();
+                for or in reversed(a.len()) {
+                    for nr in gen::subranges(b.len()) {
+                        combos.push((or.clone(), nr));
+                    }
+                    for nr in reversed(b.len()) {
+                        combos.push((or.clone(), nr));
+                    }
+                }
+                for nr in reversed(b.len()) {
+                    for or in gen::subranges(a.len()) {
+                        combos.push((or, nr.clone()));
+                    }
+                }
+                let norm = |r: &Range<usize>| if r.start > r.end { r.start..r.start } else { r.clone() };
+                let eq = |o: usize, n: usize| a[o] == b[n];
+                for (or, nr) in combos {
+                    for alg in ALGS {
+                        for dl in 0..3u8 {
+                            out.eval();
+                            out.count("reversed_range_runs");
+                            out.nontrivial(&(focus.tag(), "rev", alg_name(alg), &a, or.start, or.end, &b, nr.start, nr.end));
+                            match dl {
+                                1 => vh::set_clock(vh::Clock::Fuel(u64::MAX)),
+                                2 => vh::set_clock(vh::Clock::Fuel(0)),
+                                _ => {}
+                            }
+                            let r = guard(|| {
+                                if dl == 0 {
+                                    capture_diff(alg, &a[..], or.clone(), &b[..], nr.clone())
+                                } else {
+                                    capture_diff_deadline(alg, &a[..], or.clone(), &b[..], nr.clone(), Some(far_deadline()))
+                                }
+                            });
+                            vh::set_clock(vh::Clock::Off);
+                            let c = || format!("alg={} entry=capture_diff(_deadline) old={:?} range {:?} new={:?} range {:?} (start > end = empty range at start) deadline={}", alg_name(alg), a, or, b, nr, ["none", "never expires", "expired at check #0"][dl as usize]);
+                            match r {
+                                Err(p) => {
+                                    if focus == Focus::C02 {
+                                        out.violation("panic", format!("capture panicked: {} | {}", p, c()));
+                                    } else {
+                                        out.count("panics_seen_owned_by_C02");
+                                    }
+                                }
+                                Ok(ops) => {
+                                    let v = check_ops(&ops, &eq, norm(&or), norm(&nr));
+                                    let list = match focus {
+                                        Focus::C02 => &v.script,
+                                        Focus::C09 => &v.normal,
+                                        _ => &v.carried,
+                                    };
+                                    if focus == Focus::C11 && !v.script.is_empty() {
+                                        for (code, msg) in v.script.iter().filter(|(code, _)| code.ends_with("_position")) {
+                                            out.violation(code, format!("{} | {} | ops={}", msg, c(), fmt_ops(&ops)));
+                                        }
+                                        continue;
+                                    }
+                                    for (code, msg) in list {
+                                        out.violation(code, format!("{} | {} | ops={}", msg, c(), fmt_ops(&ops)));
+                                    }
+                                }
+                            }
+                        }
+                    }
+                }
+            },
+        ));
+    }
+    if focus == Focus::C03 {
+        v.push(family(
+            "deadline_free_text_apis",
+            "the text entry points that take NO deadline (utils::diff_chars / diff_words / diff_lines / diff_slices, TextDiff::from_chars / from_words / from_lines / from_slices, TextDiff::configure() without deadline or timeout) run under a virtual clock on which any deadline would already have expired (Fuel(0)): time cannot matter to them, so their Myers and LCS results must still be minimal (DP optimum over the tokens); seeded random token sequences up to 40 tokens",
+            false,
+            8,
+            move |cfg| cfg.n(4_000, 80_000),
+            move |idx, cfg, out| {
+                let mut rng = Rng::for_case(cfg.seed, "captured.deadline_free", idx);
+                let (a, b) = gen::rand_pair(&mut rng, if cfg.tiny { 6 } else { 40 });
+                let alg = if rng.chance(1, 2) { Algorithm::Myers } else { Algorithm::Lcs };
+                // single-char tokens for the char API, words / lines otherwise
+                let letters: Vec<char> = "abcdefghijklmnopqrstuvwxyzABCDEFGHIJKLMNOPQRSTUVWXYZ0123456789".chars().collect();
+                let tok = |x: u32| -> char { letters[(x as usize) % letters.len()] };
+                let which = (idx % 9) as u8;
+                let (ta, tb): (String, String) = match which {
+                    0 | 3 | 6 => (a.iter().map(|x| tok(*x)).collect(), b.iter().map(|x| tok(*x)).collect()),
+                    1 | 4 | 7 => (a.iter().map(|x| format!("w{}", x)).collect::<Vec<_>>().join(" "), b.iter().map(|x| format!("w{}", x)).collect::<Vec<_>>().join(" ")),
+                    _ => (a.iter().map(|x| format!("l{}\n", x)).collect(), b.iter().map(|x| format!("l{}\n", x)).collect()),
+                };
+                let what = ["utils::diff_chars", "utils::diff_words", "utils::diff_lines", "TextDiff::from_chars", "TextDiff::from_words", "TextDiff::from_lines", "TextDiff::configure().diff_chars", "TextDiff::configure().diff_words", "TextDiff::configure().diff_lines"][which as usize];
+                out.sample(|| format!("{} alg={} old={:?} new={:?} under a clock on which every deadline has expired", what, alg_name(alg), ta, tb));
+                out.eval();
+                vh::set_clock(vh::Clock::Fuel(0));
+                // cost = number of tokens in non-Equal changes; tokens as the API itself splits them
+                let r = guard(|| -> (usize, Vec<String>, Vec<String>) {
+                    use similar::{ChangeTag, DiffableStr};
+                    let (toks_a, toks_b): (Vec<&str>, Vec<&str>) = match which % 3 {
+                        0 => (ta.tokenize_chars(), tb.tokenize_chars()),
+                        1 => (ta.tokenize_words(), tb.tokenize_words()),
+                        _ => (ta.tokenize_lines(), tb.tokenize_lines()),
+                    };
+                    let owned = |v: &[&str]| v.iter().map(|s| s.to_string()).collect::<Vec<_>>();
+                    let cost = match which {
+                        0 | 1 | 2 => {
+                            let v = match which {
+                                0 => similar::utils::diff_chars(alg, &ta, &tb),
+                                1 => similar::utils::diff_words(alg, &ta, &tb),
+                                _ => similar::utils::diff_lines(alg, &ta, &tb),
+                            };
+                            // these helpers merge the tokens of one op into one slice: count tokens again
+                            v.iter()
+                                .filter(|(t, _)| *t != ChangeTag::Equal)
+                                .map(|(_, s)| match which {
+                                    0 => s.tokenize_chars().len(),
+                                    1 => s.tokenize_words().len(),
+                                    _ => s.tokenize_lines().len(),
+                                })
+                                .sum()
+                        }
+                        _ => {
+                            let d = match which {
+                                3 => TextDiff::from_chars(&ta, &tb),
+                                4 => TextDiff::from_words(&ta, &tb),
+                                5 => TextDiff::from_lines(&ta, &tb),
+                                6 => TextDiff::configure().algorithm(alg).diff_chars(&ta, &tb),
+                                7 => TextDiff::configure().algorithm(alg).diff_words(&ta, &tb),
+                                _ => TextDiff::configure().algorithm(alg).diff_lines(&ta, &tb),
+                            };
+                            d.iter_all_changes().filter(|c| c.tag() != ChangeTag::Equal).count()
+                        }
+                    };
+                    (cost, owned(&toks_a), owned(&toks_b))
+                });
+                let probes = vh::probes();
+                vh::set_clock(vh::Clock::Off);
+                out.count_n("deadline_probes_without_deadline_observed", probes.1);
+                match r {
+                    Err(p) => out.violation("panic", format!("{} panicked: {} | old={:?} new={:?}", what, p, ta, tb)),
+                    Ok((cost, toks_a, toks_b)) => {
+                        let l = lcs_len(&toks_a[..], &toks_b[..]);
+                        let opt = toks_a.len() + toks_b.len() - 2 * l;
+                        if !toks_a.is_empty() && !toks_b.is_empty() && toks_a != toks_b {
+                            out.nontrivial(&("C03.deadline_free", which, &ta, &tb));
+                        }
+                        if cost != opt {
+                            out.violation(
+                                "minimal.deadline_free_api",
+                                format!("{} (no deadline in its signature; {}) changes {} tokens but the optimum is {} | old={:?} new={:?} | run under a virtual clock on which any deadline has expired: {} deadline checks carried a deadline", what, if (3..=5).contains(&which) { "default algorithm Myers".to_string() } else { format!("alg={}", alg_name(alg)) }, cost, opt, ta, tb, probes.0),
+                            );
+                        }
+                    }
+                }
+            },
+        ));
+    }
+    if focus == Focus::C02 {
+        v.push(family(
+            "huge_lengths",
+            "the ratio on inputs far beyond f32's 2^24 integer precision: (a) get_diff_ratio on hand-built VALID op lists for sequences of L items (L around 2^24, 2^25, 2^26, 2^31, 2^32, 2^40, 2^53, 2^62) that differ in 1..3 places (substitution / deletion / insertion / both) or not at all: must lie in 0..=1 and be 1.0 exactly for the identical pair; (b) REAL sequences of 2^24+4 and 2^25+6 items differing in one place through capture_diff_slices x 3 algorithms, judged like every other captured script",
+            true,
+            1,
+            move |cfg| if cfg.tiny { 24 } else { 8 * 12 * 4 + cfg.tier.pick(3, 6) },
+            move |idx, cfg, out| {
+                const LS: [usize; 12] = [
+                    (1 << 24) - 2,
+                    (1 << 24) + 1,
+                    (1 << 24) + 3,
+                    (1 << 24) + 4,
+                    (1 << 25) + 6,
+                    (1 << 26) + 10,
+                    (1 << 27) + 1,
+                    (1usize << 31) + 3,
+                    (1usize << 32) + 5,
+                    (1usize << 40) + 7,
+                    (1usize << 53) + 9,
+                    (1usize << 62) - 1,
+                ];
+                let synthetic = if cfg.tiny { 24 } else { 8 * 12 * 4 };
+                if idx < synthetic {
+                    let l = LS[(idx % 12) as usize];
+                    let shape = (idx / 12 % 4) as usize;
+                    let k = (idx / 48) as usize; // 0 = identical, 1..7: position of the change
+                    let pos = match k {
+                        0 => 0,
+                        1 => 0,
+                        2 => 1,
+                        3 => l / 3,
+                        4 => l / 2,
+                        5 => l - 2,
+                        6 => l - 1,
+                        _ => l / 7 * 5,
+                    };
+                    // old = L items; the change sits at `pos`
+                    let (ops, n, m, same): (Vec<DiffOp>, usize, usize, bool) = if k == 0 {
+                        (vec![DiffOp::Equal { old_index: 0, new_index: 0, len: l }], l, l, true)
+                    } else {
+                        let mut ops = Vec::new();
+                        if pos > 0 {
+                            ops.push(DiffOp::Equal { old_index: 0, new_index: 0, len: pos });
+                        }
+                        let (n, m, o_next, n_next) = match shape {
+                            0 => {
+                                ops.push(DiffOp::Replace { old_index: pos, old_len: 1, new_index: pos, new_len: 1 });
+                                (l, l, pos + 1, pos + 1)
+                            }
+                            1 => {
+                                ops.push(DiffOp::Delete { old_index: pos, old_len: 1, new_index: pos });
+                                (l, l - 1, pos + 1, pos)
+                            }
+                            2 => {
+                                ops.push(DiffOp::Insert { old_index: pos, new_index: pos, new_len: 1 });
+                                (l, l + 1, pos, pos + 1)
+                            }
+                            _ => {
+                                ops.push(DiffOp::Replace { old_index: pos, old_len: 1, new_index: pos, new_len: 2 });
+                                (l, l + 1, pos + 1, pos + 2)
+                            }
+                        };
+                        if o_next < n {
+                            ops.push(DiffOp::Equal { old_index: o_next, new_index: n_next, len: n - o_next });
+                        }
+                        (ops, n, m, false)
+                    };
+                    out.sample(|| format!("get_diff_ratio on hand-built ops={} for N={} M={}", fmt_ops(&ops), n, m));
+                    if !same {
+                        out.nontrivial(&("C02.huge_ratio", n, m, pos, shape));
+                    }
+                    out.eval();
+                    out.count("huge_length_ratio_cases");
+                    match guard(|| get_diff_ratio(&ops, n, m)) {
+                        Err(p) => out.violation("panic", format!("get_diff_ratio panicked: {} | ops={} N={} M={}", p, fmt_ops(&ops), n, m)),
+                        Ok(ratio) => {
+                            if !(0.0..=1.0).contains(&ratio) {
+                                out.violation("ratio.out_of_range", format!("ratio {} | hand-built valid ops={} N={} M={}", ratio, fmt_ops(&ops), n, m));
+                            }
+                            if (ratio == 1.0) != same {
+                                out.violation(
+                                    "ratio.one_iff_equal",
+                                    format!("ratio {} but the sequences are {} | hand-built valid ops={} N={} M={}", ratio, if same { "equal" } else { "different" }, fmt_ops(&ops), n, m),
+                                );
+                            }
+                        }
+                    }
+                    return;
+                }
+                // (b) real sequences
+                let j = idx - synthetic;
+                let l = if j < 3 { (1usize << 24) + 4 } else { (1usize << 25) + 6 };
+                let alg = ALGS[(j % 3) as usize];
+                let a: Vec<u32> = (0..l).map(|i| (i % 7) as u32).collect();
+                let mut b = a.clone();
+                let pos = [l / 2, 5, l - 3][(j % 3) as usize];
+                b[pos] = 99;
+                out.sample(|| format!("alg={} N=M={} one substitution at {} through capture_diff_slices", alg_name(alg), l, pos));
+                out.count("huge_length_real_cases");
+                out.nontrivial(&("C02.huge_real", l, pos, alg_name(alg)));
+                out.eval();
+                let r = capture_once(alg, &a, 0..l, &b, 0..l, 1, None, far_deadline());
+                judge(focus, cfg, alg, &a, &(0..l), &b, &(0..l), 1, None, &r, out);
+            },
+        ));
+    }
     v
 }
 
@@ -497,6 +866,17 @@ fn capture_once(
                 capture_diff_slices(alg, a, b)
             }
         }
+        3 => Vec::new(), // run below
+        4 => {
+            // the slice entry points of the algorithms module, driving the capture stack directly
+            let mut d = similar::algorithms::Compact::new(similar::algorithms::Replace::new(similar::algorithms::Capture::new()), a, b);
+            if deadline.is_some() {
+                similar::algorithms::diff_slices_deadline(alg, &mut d, a, b, deadline).unwrap();
+            } else {
+                similar::algorithms::diff_slices(alg, &mut d, a, b).unwrap();
+            }
+            d.into_inner().into_inner().into_ops()
+        }
         _ => {
             let sa: Vec<String> = a.iter().map(|x| format!("t{}\n", x)).collect();
             let sb: Vec<String> = b.iter().map(|x| format!("t{}\n", x)).collect();
@@ -511,6 +891,7 @@ fn capture_once(
             d.ops().to_vec()
         }
     });
+    let r = if entry == 3 { guard(|| odd_text_ops(alg, a, b, deadline)) } else { r };
     let probes = vh::probes().0;
     vh::set_clock(vh::Clock::Off);
     r.map(|ops| Run {
@@ -518,6 +899,30 @@ fn capture_once(
         swaps: vh::swaps() - swaps0,
         probes,
     })
+}
+
+/// entry 3: the items as LINES of a user-defined text type (`OddStr`): equal items have
+/// different bytes (per-occurrence letter case), odd items end in U+2028 instead of LF
+fn odd_text_ops(alg: Algorithm, a: &[u32], b: &[u32], deadline: Option<Instant>) -> Vec<DiffOp> {
+    use crate::odd_str::{recase, OddStr};
+    let mk = |v: &[u32], side: u64| -> String {
+        let mut s = String::new();
+        for (i, x) in v.iter().enumerate() {
+            s.push_str(&recase(&format!("tok{}", x), side * 1_000_003 + i as u64));
+            s.push_str(if x % 2 == 0 { "\n" } else { "\u{2028}" });
+        }
+        s
+    };
+    let (ta, tb) = (mk(a, 1), mk(b, 2));
+    let mut c = TextDiff::configure();
+    c.algorithm(alg);
+    if let Some(d) = deadline {
+        c.deadline(d);
+    }
+    let d = c.diff_lines(OddStr::new(&ta), OddStr::new(&tb));
+    assert_eq!(d.old_slices().len(), a.len(), "harness: OddStr line count (old)");
+    assert_eq!(d.new_slices().len(), b.len(), "harness: OddStr line count (new)");
+    d.ops().to_vec()
 }
 
 #[allow(clippy::too_many_arguments)]
@@ -632,6 +1037,8 @@ fn ctx(alg: Algorithm, a: &[u32], or: &Range<usize>, b: &[u32], nr: &Range<usize
             12 => "Compact<Replace<Replace<Capture>>>",
             13 => "captured ops replayed via apply_to_hook into Replace<Capture>",
             14 => "Compact<&mut Replace<Capture>> (buffering adapter by reference)",
+            4 => "algorithms::diff_slices(_deadline) into Compact<Replace<Capture>>",
+            3 => "TextDiff::configure().diff_lines over a user-defined DiffableStr (OddStr: case-insensitive Eq, U+2028 line ends, char-indexed)",
             _ => "TextDiff::configure().diff_slices",
         },
         fmt_seq(a),
